@@ -380,7 +380,9 @@ func c19mRunGraph(c *c19mCase, r compose.Runnable[gcase.M, gcase.M], rec *c19mRe
 	bg := context.Background()
 	var ropts []compose.Option
 	if len(c.Handlers) > 0 {
-		ropts = append(ropts, compose.WithCallbacks(c19Handlers(c.Handlers)...))
+		hopts, hdone := c19RunOpts(c.Handlers)
+		defer hdone()
+		ropts = append(ropts, hopts...)
 	}
 	x := gcase.M{"in": "x"}
 	var sr *schema.StreamReader[gcase.M]
@@ -490,7 +492,9 @@ func c19mOne(ctx *vh.Ctx, c *c19mCase) error {
 			run = func() error {
 				var ropts []compose.Option
 				if len(c.Handlers) > 0 && c.Sink != "direct" {
-					ropts = append(ropts, compose.WithCallbacks(c19Handlers(c.Handlers)...))
+					hopts, hdone := c19RunOpts(c.Handlers)
+					defer hdone()
+					ropts = append(ropts, hopts...)
 				}
 				sr, err := st(ropts)
 				if err != nil {
@@ -630,9 +634,7 @@ func c19mOne(ctx *vh.Ctx, c *c19mCase) error {
 		return nil
 	}
 	sfx := c.Level + ":" + path
-	if len(c.Handlers) > 0 {
-		sfx += ":callbacks"
-	}
+	sfx += c19CbSfx(c.Handlers)
 	if !tr.settled(4 * time.Second) {
 		stuck, states := tr.snapshot()
 		must := map[int]bool{}
